@@ -429,14 +429,14 @@ class C20(common.Prop):
                  'rejected wherever it stands) + per-case correspondence of the three models with the implementation '
                  '+ the property evaluated in Coq on the exception the implementation raised, for every fault kind at '
                  'every position of generated valid strings')
-    vo_deps = ['theories/Dialect/FaultCheck.vo', 'theories/Reader/ReaderImpl.vo', 'theories/Frag/StripImpl.vo']
+    vo_deps = ['theories/Dialect/FaultCheck.vo', 'theories/Reader/ReaderImpl.vo', 'theories/Frag/StripImpl.vo', 'theories/Dialect/DriverModel.vo']
     prop_file = 'theories/Properties/C20.v'
     case_requires = ('From Coq Require Import String.\nFrom Coq Require Import List Ascii ZArith Bool.\n'
                      'From CGV Require Import Base.PyBase Base.PyVal Dialect.DialectImpl Dialect.DialectDefs '
                      'Dialect.DialectCheck Dialect.FaultModels Dialect.FaultCheck.')
     case_type = 'fcase'
     shard = 150
-    quick_cases = 900
+    quick_cases = 800
     thorough_cases = 20000
     extended_cases = 3000
     fail_text = {1: 'the faulty string yielded a graph (no exception)',
@@ -512,6 +512,9 @@ class C20(common.Prop):
         if self.base_fault(case):
             out['base_table'] = c14.float_table({c for m in NODE_RE.finditer(case['s'].split('}')[0])
                                                  for c in c14.candidates(m.group(0)[2:-1])})
+        if 'frag_text' in case:
+            out['all_table'] = c14.float_table({c for m in re.finditer(r'\[[^\]]*\]', case['s'])
+                                                for c in c14.candidates(m.group(0)[1:-1].lstrip('#'))})
         if case['kind'] == 'frag':
             hit = [r for r in rec if any(nm == 'ZZ' for _, nm in r['nodes'])]
             if not hit:
@@ -539,6 +542,9 @@ class C20(common.Prop):
         inner = self.coq_case1(case, impl)
         if 'skip' not in impl and self.base_fault(case):
             return '(FBase %s %s %s)' % (inner, c14.coq_table(impl['base_table']), lit.s(case['s']))
+        if 'skip' not in impl and 'frag_text' in case:
+            return '(FFragDrive %s %s %s %s)' % (inner, c14.coq_table(impl['all_table']), lit.s(case['s']),
+                                                'true' if case['aa'] else 'false')
         return inner
 
     def coq_case1(self, case, impl):
